@@ -53,7 +53,7 @@ type FnCtx struct {
 	closure      bool
 	globalWrites []*types.Var
 	gen          *genInfo // non-nil: a closure of generated code (call-site hooks active)
-	nameSuffix   string // appended to obligation names while deferred calls run at an exit
+	nameSuffix   string   // appended to obligation names while deferred calls run at an exit
 }
 
 func (fc *FnCtx) counter(kind string) int {
@@ -1138,7 +1138,7 @@ func (fc *FnCtx) applyUses(st *State, where string) {
 		}
 	}
 	for _, a := range fc.c.Asserts {
-		if a.Where == where {
+		if a.Where == where && fc.e.applies(&Clause{Props: a.Props}) {
 			sc := fc.specCtx(st, nil)
 			sc.pol = 1
 			t := sc.evalBool(a.Expr)
@@ -1147,7 +1147,7 @@ func (fc *FnCtx) applyUses(st *State, where string) {
 		}
 	}
 	for _, u := range fc.c.Uses {
-		if u.Where == where {
+		if u.Where == where && fc.e.applies(&Clause{Props: u.Props}) {
 			fc.useLemma(st, u)
 		}
 	}
